@@ -238,7 +238,7 @@ func c02BacktrackingChain(w *World, r *Report, ra *repoAnchors) {
 		r.Analysed(w.FnName(add))
 		var node ssa.Value
 		eachInstr(add, func(in ssa.Instruction) {
-			if st, ok := in.(*ssa.Store); ok && pathEndsWith(st.Addr, "values") {
+			if st, ok := in.(*ssa.Store); ok && pathEndsWith(st.Addr, nodeValuesFieldName) {
 				if fa, ok := st.Addr.(*ssa.FieldAddr); ok {
 					node = fa.X
 				}
@@ -356,11 +356,11 @@ func c02Order(w *World, r *Report, ra *repoAnchors) {
 	ok := false
 	eachInstr(add, func(in ssa.Instruction) {
 		st, isSt := in.(*ssa.Store)
-		if !isSt || !pathEndsWith(st.Addr, "values") {
+		if !isSt || !pathEndsWith(st.Addr, nodeValuesFieldName) {
 			return
 		}
 		if c, isC := st.Val.(*ssa.Call); isC {
-			if b, isB := c.Call.Value.(*ssa.Builtin); isB && b.Name() == "append" && pathEndsWith(c.Call.Args[0], "values") {
+			if b, isB := c.Call.Value.(*ssa.Builtin); isB && b.Name() == "append" && pathEndsWith(c.Call.Args[0], nodeValuesFieldName) {
 				els := sliceLiteralElems(c.Call.Args[1])
 				if len(els) == 1 && stripConv(els[0]) == ssa.Value(add.Params[2]) {
 					ok = true
@@ -376,7 +376,7 @@ func c02Order(w *World, r *Report, ra *repoAnchors) {
 			continue
 		}
 		eachInstr(fn, func(in ssa.Instruction) {
-			if st, isSt := in.(*ssa.Store); isSt && pathEndsWith(st.Addr, "values") {
+			if st, isSt := in.(*ssa.Store); isSt && pathEndsWith(st.Addr, nodeValuesFieldName) {
 				if _, isFA := st.Addr.(*ssa.FieldAddr); isFA {
 					name := fn.Name()
 					if i := strings.Index(name, "["); i > 0 {
@@ -390,7 +390,7 @@ func c02Order(w *World, r *Report, ra *repoAnchors) {
 		for _, c := range callsIn(fn) {
 			if isSortCall(c.Common()) || strings.HasPrefix(callName(c.Common()), "slices.Reverse") {
 				for _, a := range c.Common().Args {
-					if pathEndsWith(a, "values") {
+					if pathEndsWith(a, nodeValuesFieldName) {
 						r.Ob(ri, w.FnName(fn)+"|values-reordered", c.Pos(), false, "the values of a node are reordered")
 					}
 				}
@@ -748,7 +748,25 @@ func c03NodeConsistency(w *World, r *Report) {
 	ri := r.Rule("C03.3", 2, "the lookup hands every candidate the wildcard keys of its own node and one captured value per key")
 	for i, s := range lookupMatcherSites(w) {
 		r.Analysed(w.FnName(s.Fn))
-		want := append(append([]string{}, s.NodePath...), "wildcardKeys")
+		// the node's key list: its only []string field
+		keysField := "wildcardKeys"
+		if s.Fn.Signature.Recv() != nil {
+			if st, ok := derefType(s.Fn.Signature.Recv().Type()).Underlying().(*types.Struct); ok {
+				cnt := 0
+				for i := 0; i < st.NumFields(); i++ {
+					if sl, ok := st.Field(i).Type().Underlying().(*types.Slice); ok {
+						if b, ok := sl.Elem().Underlying().(*types.Basic); ok && b.Kind() == types.String {
+							keysField = st.Field(i).Name()
+							cnt++
+						}
+					}
+				}
+				if cnt != 1 {
+					keysField = "wildcardKeys"
+				}
+			}
+		}
+		want := append(append([]string{}, s.NodePath...), keysField)
 		okK := strings.Join(s.KeysPath, ".") == strings.Join(want, ".")
 		r.Ob(ri, fmt.Sprintf("%s|site%d|%s|keys-of-iterated-node", w.FnName(s.Fn), i, pathStr(s.NodePath)), s.Call.Pos(), okK,
 			fmt.Sprintf("values of node %s are matched with the keys %s instead of %s: conditions on the captured values of such routes see the wrong (or no) keys", pathStr(s.NodePath), pathStr(s.KeysPath), strings.Join(want, ".")))
@@ -1195,17 +1213,66 @@ func c02Specificity(w *World, r *Report, ra *repoAnchors) {
 		return
 	}
 	r.Analysed(w.FnName(fn))
-	kindOf := func(v ssa.Value) string {
-		_, p := accessPath(v)
-		for _, e := range p {
-			switch e {
-			case "staticChildren":
-				return "static"
-			case "wildcardChild":
-				return "wildcard"
-			case "catchAllChild":
-				return "catchall"
+	// the child a value denotes, by the type of the node field it is read from: the slice of nodes
+	// holds the static children; of the two single-node fields the one the lookup descends into
+	// recursively is the wildcard child, the other one (matched in place) the catch-all
+	fieldOfNode := func(v ssa.Value) *types.Var {
+		var found *types.Var
+		var walk func(v ssa.Value, depth int)
+		walk = func(v ssa.Value, depth int) {
+			if depth > 6 || v == nil {
+				return
 			}
+			switch x := v.(type) {
+			case *ssa.UnOp:
+				walk(x.X, depth+1)
+			case *ssa.IndexAddr:
+				walk(x.X, depth+1)
+			case *ssa.FieldAddr:
+				if f := fieldOf(x.X.Type(), x.Field); f != nil && found == nil {
+					// a field read directly from the receiver node
+					if root, pp := accessPath(x.X); (root == ssa.Value(fn.Params[0]) && len(pp) == 0) || x.X == ssa.Value(fn.Params[0]) {
+						found = f
+					}
+				}
+				if found == nil {
+					walk(x.X, depth+1)
+				}
+			case *ssa.Phi:
+				for _, e := range x.Edges {
+					walk(e, depth+1)
+				}
+			}
+		}
+		walk(v, 0)
+		return found
+	}
+	recursedInto := map[*types.Var]bool{}
+	for _, ci := range callsIn(fn) {
+		if c, ok := ci.(*ssa.Call); ok {
+			if callee := c.Common().StaticCallee(); callee != nil && callee.Name() == fn.Name() && len(c.Common().Args) > 0 {
+				if f := fieldOfNode(c.Common().Args[0]); f != nil {
+					recursedInto[f] = true
+				}
+			}
+		}
+	}
+	kindOf := func(v ssa.Value) string {
+		f := fieldOfNode(v)
+		if f == nil {
+			return ""
+		}
+		if _, isSlice := f.Type().Underlying().(*types.Slice); isSlice {
+			if _, elemPtr := f.Type().Underlying().(*types.Slice).Elem().Underlying().(*types.Pointer); elemPtr {
+				return "static"
+			}
+			return ""
+		}
+		if _, isPtr := f.Type().Underlying().(*types.Pointer); isPtr {
+			if recursedInto[f] {
+				return "wildcard"
+			}
+			return "catchall"
 		}
 		return ""
 	}
